@@ -1,6 +1,7 @@
 SPECIFICATION TSpec
 CONSTANTS
   NKeys = 4
+  Mut = "none"
   Policy = "wc"
 POSTCONDITION AllConsumed
 CHECK_DEADLOCK FALSE
